@@ -1526,6 +1526,40 @@ func analyzeSearch(c *core.Ctx, rule string) *searchInfo {
 
 	// ---- the two loops
 	outers, inners := vf.loopsOver(ro.rulesF, "outer"), vf.loopsOver(ro.pathsF, "inner")
+	// a form that is not followed: a loop of the search inside a helper that calls a func parameter
+	// in its body (a callback iterator: the body of the loop is a function literal of the caller
+	// that assigns the caller's locals)
+	for _, l := range append(append([]*muxLoop{}, outers...), inners...) {
+		for _, g := range s.fns {
+			fd, ok := g.Node.(*ast.FuncDecl)
+			if !ok || g == f || fd.Body == nil || l.stmt.Pos() < fd.Body.Pos() || l.stmt.End() > fd.Body.End() {
+				continue
+			}
+			var cb ast.Node
+			ast.Inspect(l.stmt, func(n ast.Node) bool {
+				if call, ok := n.(*ast.CallExpr); ok && cb == nil {
+					if id, ok := ast.Unparen(call.Fun).(*ast.Ident); ok {
+						if pr, isParam := vf.param[vf.obj(id)]; isParam && pr.idx >= 0 {
+							if _, isFunc := vf.obj(id).Type().Underlying().(*types.Signature); isFunc {
+								// handed the element itself (a callback that is given something else,
+								// such as remember(&route{..}), is not an iterator's visit function)
+								for _, a := range call.Args {
+									if aid := muxIdentOf(a); aid != nil && l.elems[vf.obj(aid)] {
+										cb = call
+									}
+								}
+							}
+						}
+					}
+				}
+				return cb == nil
+			})
+			if cb != nil {
+				c.Undecide(rule, s.cons+"|form of the search", pos(c, cb), "a loop of the search is inside a helper that hands each element to a func parameter (callback iterator): the loop body is a function literal assigning the caller's locals, this form is not followed")
+				return nil
+			}
+		}
+	}
 	if len(outers) != 1 || len(inners) != 1 {
 		c.Errorf("%s: anchor: the search does not consist of one loop over the rules and one loop over a rule's paths (found %d / %d, helpers of the search included)", rule, len(outers), len(inners))
 		return nil
